@@ -34,6 +34,13 @@ func VerifC02Gate() {
 	}
 	t.AddAggregator(agg)
 	aggIn := stats.Counter("unit=Metric.direction=in.aggregator=" + agg.Key)
+	// param blacklist=1: a blacklist entry that matches every name. Validation comes first: a line that fails it
+	// is counted and reported as invalid whether or not the blacklist would have dropped it as well.
+	blacklisted := verifParam("blacklist") == "1"
+	if blacklisted {
+		t.AddBlacklist(&all)
+	}
+	bl0 := stats.Counter("unit=Metric.direction=blacklist").Count()
 
 	n := verifChoice("linelen", 1+len(verifParam("maxlen")))
 	line := verifBytes("line", n)
@@ -54,7 +61,11 @@ func VerifC02Gate() {
 	in1 := stats.Counter("unit=Metric.direction=in").Count()
 	inv1 := stats.Counter("unit=Err.type=invalid").Count()
 	verifAssert(in1 == in0+1, "in-counted-once")
-	if verr == nil {
+	if verr == nil && blacklisted {
+		verifAssert(len(r.got) == 0 && aggIn.Count() == a0, "blacklisted-line-forwarded-nowhere")
+		verifAssert(stats.Counter("unit=Metric.direction=blacklist").Count() == bl0+1, "blacklisted-line-counted-once")
+		verifAssert(inv1 == inv0, "valid-line-not-counted-invalid")
+	} else if verr == nil {
 		verifAssert(len(r.got) == 1, "valid-line-forwarded-to-route")
 		verifAssert(aggIn.Count() == a0+1, "valid-line-forwarded-to-aggregation")
 		verifAssert(inv1 == inv0, "valid-line-not-counted-invalid")
